@@ -124,7 +124,7 @@ def check_c15(case, stats):
 
 
 CHECKS = {'check_c15': check_c15}
-_B = {'quick': 60, 'thorough': 600}
+_B = {'quick': 120, 'thorough': 800}
 
 
 def shards(tier):
